@@ -38,7 +38,7 @@ ASSUMPTIONS = [
     "sizes > 4 and non-dyadic entries are not enumerated",
 ]
 
-PATHS = ["dd", "sd", "ds", "ss", "tq", "tqs"]  # dense.dense, sparse.dense, dense.sparse, sparse.sparse, timesQsparse ndarray / scipy-sparse
+PATHS = ["dd", "sd", "ds", "ss", "tq", "tqs", "tqa"]  # dense.dense, sparse.dense, dense.sparse, sparse.sparse, timesQsparse ndarray / scipy-sparse
 
 
 def product(lib, path, A, B):
@@ -65,6 +65,9 @@ def product(lib, path, A, B):
     if path == "tqs":
         r = u.timesQsparse(*[sp.csr_matrix(c) for c in comps(A)], *[sp.csr_matrix(c) for c in comps(B)])
         return np.stack([np.asarray(x) for x in r], axis=-1)
+    if path == "tqa":  # scipy sparse ARRAYS (csr_array / coo_array), not sparse matrices
+        r = u.timesQsparse(*[sp.csr_array(c) for c in comps(A)], *[sp.coo_array(c).tocsr() for c in comps(B)])
+        return np.stack([np.asarray(x.toarray() if hasattr(x, "toarray") else x) for x in r], axis=-1)
     raise ValueError(path)
 
 
